@@ -293,3 +293,14 @@ func RabinHonest(privs []kyber.Scalar, pubs []kyber.Point, t int) ([]*rdkg.DistK
 	}
 	return out, nil
 }
+
+// DrawMsg draws a message: mostly short, sometimes of a length around the block sizes of the hashes in
+// use (63, 64, 65, 127, 128, 129, 136, 255, 256, 300) - a lesson of seed C14f. The extra draw comes from
+// its own label, so that older tapes keep their meaning for the short case.
+func DrawMsg(t *core.Tape, label string, maxShort int) []byte {
+	n := 1 + t.Intn(label, maxShort)
+	if t.Bool(label+".long", 150) {
+		n = []int{63, 64, 65, 127, 128, 129, 136, 255, 256, 300}[t.Intn(label+".long", 10)]
+	}
+	return t.Bytes(label, n)
+}
